@@ -78,7 +78,7 @@ vf_rb_wf(const r_buf_t *r) {
 	 * (contiguous unless RBUF_F_FRAG), the last one ends at wpos */
 	n = vf_rb_ncommitted(r);
 	end = 0;
-	for (i = 0; i < n; i ++) {
+	for (i = 0; i < VF_RB_IOVN && i < n; i ++) {
 		if (!vf_rb_inside(r, r->iov[i].iov_base, r->iov[i].iov_len))
 			return (0);
 		off = VF_RB_OFF(r, r->iov[i].iov_base);
@@ -100,7 +100,9 @@ vf_rb_wf(const r_buf_t *r) {
 		return (r->iov_index_max <= r->iov_index);
 	/* remnants of the previous round: inside, >= min_block_size, address ordered */
 	end = 0;
-	for (i = r->iov_index + 1; i <= r->iov_index_max; i ++) {
+	for (i = 1; i < VF_RB_IOVN; i ++) {
+		if (i <= r->iov_index || i > r->iov_index_max)
+			continue;
 		if (!vf_rb_inside(r, r->iov[i].iov_base, r->iov[i].iov_len))
 			return (0);
 		off = VF_RB_OFF(r, r->iov[i].iov_base);
@@ -148,8 +150,11 @@ static inline size_t
 vf_rb_sum(const r_buf_t *r, size_t from, size_t to) {
 	size_t i, s = 0;
 
-	for (i = from; i <= to && i < VF_RB_IOVN; i ++)
-		s += r->iov[i].iov_len;
+	/* constant table indices, guarded: no symbolic array indexing for the solver */
+	for (i = 0; i < VF_RB_IOVN; i ++) {
+		if (from <= i && i <= to)
+			s += r->iov[i].iov_len;
+	}
 	return (s);
 }
 
